@@ -304,6 +304,16 @@ def normalize(scn: Scn):
     return scn
 
 
+def legal(scn: Scn):
+    """Shapes the generators never produce because they are recorded findings or outside the properties:
+    a coroutine callback on a listener that is attached late to a machine running the sync engine (D12)."""
+    if not scn.is_async():
+        late = {o[1] for o in scn.ops if o[0] == "add_listener"} - set(scn.listeners_ctor)
+        if any(c.coro for c in scn.cbs if c.provider in late):
+            return False
+    return True
+
+
 def expanded_trans(scn: Scn):
     """The transitions as the class holds them: explicit ones in declaration order, then one copy of
     every `from_.any()` template per non-final state."""
@@ -842,7 +852,8 @@ def build(scn: Scn, rt: Runtime, cls_name=None, picklable=False):
     hooks_cls = type("Hooks" + suffix, (), {"__init__": lambda self, **k: self.__dict__.update(k)})
     if hooks:
         lclasses.append(hooks_cls)
-    for p in sorted({c.provider for c in scn.cbs if c.provider.startswith("L")} | set(scn.listeners_ctor)):
+    for p in sorted({c.provider for c in scn.cbs if c.provider.startswith("L")} | set(scn.listeners_ctor)
+                    | {o[1] for o in scn.ops if o[0] == "add_listener"}):
         if hooks:
             factories[p] = (lambda d: (lambda: hooks_cls(**d)))(dict(listener_ns.get(p, {})))
         else:
